@@ -107,6 +107,36 @@ Theorem C04_type_of_weaken : forall cols aggs e t, type_of cols [] e = Some t ->
 Proof. exact type_of_weaken. Qed.
 Print Assumptions C04_type_of_weaken.
 
+(* The implicit cast of Compiler._binaryop (exactly one operand of dtype object: wrap it in the cast function
+   named after the other operand's dtype, int promoted to Decimal, and retry). [type_of_c] types such trees,
+   [eval_c] evaluates the COMPILED tree (cast nodes included); for any cast functions that honour their declared
+   output type (cast_contract: NULL or an instance of the target type - what sweep 1 checks on every cast overload
+   of the implementation, and what C18's models satisfy, Proofs/TypingCastsProofs.v) every typed tree evaluates
+   to NULL or a value of the announced dtype and never to an exception. *)
+Theorem C04_eval_cast_sound : forall cols aggs castf r st e t,
+  cast_contract castf -> conforms cols r -> conforms aggs st ->
+  type_of_c cols aggs e = Some t ->
+  has_type (eval_c cols aggs castf r st e) t = true /\ (forall k, eval_c cols aggs castf r st e <> VErr k).
+Proof. intros cols aggs castf r st e t CC Hr Hst. exact (eval_c_sound cols aggs castf r st CC Hr Hst e t). Qed.
+Print Assumptions C04_eval_cast_sound.
+
+(* on trees without an object-against-typed binary operator nothing changes: same dtype, same value as Eval.eval *)
+Theorem C04_cast_conservative : forall cols aggs castf r st e t,
+  type_of cols aggs e = Some t ->
+  type_of_c cols aggs e = Some t /\ eval_c cols aggs castf r st e = eval r st e.
+Proof. intros cols aggs castf r st e t. exact (conservative cols aggs castf r st e t). Qed.
+Print Assumptions C04_cast_conservative.
+
+(* every operand combination the cast makes typable, the cast inserted and the dtype of the node *)
+Theorem C04_cast_overloads : cast_table =
+  (cast_num BAdd ++ cast_num BSub ++ cast_num BMul ++ cast_num BDiv ++ cast_num BMod
+   ++ cast_cmp BEq ++ cast_cmp BNe ++ cast_cmp BLt ++ cast_cmp BLe ++ cast_cmp BGt ++ cast_cmp BGe
+   ++ [(BMatch, TStr, TObject, (None, Some TStr, TBool)); (BMatch, TObject, TStr, (Some TStr, None, TBool));
+       (BNotMatch, TStr, TObject, (None, Some TStr, TBool)); (BNotMatch, TObject, TStr, (Some TStr, None, TBool));
+       (BSubDateDate, TDate, TObject, (None, Some TDate, TInt)); (BSubDateDate, TObject, TDate, (Some TDate, None, TInt))])%list.
+Proof. exact cast_table_spec. Qed.
+Print Assumptions C04_cast_overloads.
+
 (* One obligation per overload: the typing tables of all modelled constructors, computed from the
    registry snapshot, are exactly these (a changed declaration breaks the equality) ... *)
 Theorem C04_binop_overloads : binop_table =
